@@ -50,6 +50,8 @@ MetricsWithAgg == {"mae", "bias", "diff", "ratio", "rmse", "cmae", "obs", "fcst"
 DetMetrics == {"mae", "bias", "diff", "ratio", "ef", "stderror", "obsstddev", "fcststddev", "rmse", "rmsf", "cmae",
                "nsec", "nnsec", "kge", "alphaindex", "leps", "dmb", "mbias", "corr", "rankcorr", "kendallcorr", "derror"}
 
+\* within: the percentage of the pairs whose absolute error lies in the event (bin type bt, thresholds t, u) -- "-m within -r 2": |o - f| < 2
+WithinPct(p, bt, t, u) == IF p = <<>> THEN Undef ELSE Q(Frac(100 * Cardinality({k \in DOMAIN p : InEvent(bt, AbsR(Sub(p[k][1], p[k][2])), t, u)}), Len(p)))
 \* p = the valid pairs (possibly empty); agg, q = aggregator name and quantile level (mean unless the metric supports -agg)
 Det(name, p, agg, q) ==
   IF N(p) = 0 THEN Undef
